@@ -168,6 +168,7 @@ class Interp:
         self.approx_literals = []  # (file, line, text) float literals with >= 10 significant digits
         self.attr_hook = None  # f(obj, attr) -> value or NotImplemented
         self.call_hook = None  # f(name, args, kwargs) -> value or NotImplemented
+        self.super_hook = None  # f(cls, selfobj, method, args, kwargs) for super() calls on a non-XObj self
 
     # ------------------------------------------------------------------
     # entry points
@@ -220,6 +221,8 @@ class Interp:
                 env[n] = v
             if a.vararg is not None:
                 env[a.vararg.arg] = tuple(args[len(names) :])
+            if a.kwarg is not None:
+                env[a.kwarg.arg] = {}
             kwonly = [x.arg for x in a.kwonlyargs]
             for k, v in kwargs.items():
                 if k in names or k in kwonly:
@@ -478,6 +481,8 @@ class _Frame:
             obj = self.ev(t.value)
             if isinstance(obj, XObj):
                 obj.attrs[self.mangle(obj, t.attr)] = v
+            elif isinstance(obj, Closure):
+                pass  # f.__name__ = ..., f.__doc__ = ...: metadata of a generated function
             else:
                 raise self.bad("attribute store on a non-object", t)
         else:
@@ -612,8 +617,21 @@ class _Frame:
     def e_BinOp(self, n):
         return self.binop(type(n.op), self.ev(n.left), self.ev(n.right), n)
 
+    _DUNDER = {ast.Add: "add", ast.Sub: "sub", ast.Mult: "mul", ast.Div: "truediv", ast.MatMult: "matmul", ast.Pow: "pow"}
+
     def binop(self, op, a, b, n):
         a, b = exact(a), exact(b)
+        if (isinstance(a, XObj) or isinstance(b, XObj)) and op in self._DUNDER:
+            nm = self._DUNDER[op]
+            if isinstance(a, XObj):
+                f = self.I.repo.lookup_method(a.cls, f"__{nm}__")
+                if f is not None:
+                    return self.I.call_function(f, [b], self_obj=a)
+            if isinstance(b, XObj):
+                f = self.I.repo.lookup_method(b.cls, f"__r{nm}__")
+                if f is not None:
+                    return self.I.call_function(f, [a], self_obj=b)
+            raise self.bad(f"operator {nm} is not defined by the operand classes", n)
         try:
             if op is ast.Add:
                 return a + b
@@ -699,9 +717,13 @@ class _Frame:
             if isinstance(op, ast.Is):
                 if isinstance(a, EnumVal) and isinstance(b, EnumVal):
                     return a == b
+                if isinstance(a, _NpAttr) and isinstance(b, _NpAttr):
+                    return a == b
                 return a is b
             if isinstance(op, ast.IsNot):
                 if isinstance(a, EnumVal) and isinstance(b, EnumVal):
+                    return not (a == b)
+                if isinstance(a, _NpAttr) and isinstance(b, _NpAttr):
                     return not (a == b)
                 return a is not b
         except TypeError as e:
@@ -906,6 +928,22 @@ class _Frame:
             raise self.bad("super() outside a method", n)
         cls = self.clo.finfo.cls
         selfobj = self.env.get("self")
+        if self.I.super_hook is not None and not isinstance(selfobj, XObj):
+            args = []
+            for a in n.args:
+                if isinstance(a, ast.Starred):
+                    args.extend(self.ev(a.value))
+                else:
+                    args.append(self.ev(a))
+            kwargs = {}
+            for k in n.keywords:
+                if k.arg is None:
+                    kwargs.update(self.ev(k.value))
+                else:
+                    kwargs[k.arg] = self.ev(k.value)
+            r = self.I.super_hook(cls, selfobj, n.func.attr, args, kwargs)
+            if r is not NotImplemented:
+                return r
         if not isinstance(selfobj, XObj):
             raise self.bad("super() without a modelled self", n)
         f = self.I.repo.lookup_method(selfobj.cls, n.func.attr, start_after=cls)
@@ -930,6 +968,11 @@ class _Frame:
             return fn(*args, **kwargs)
         if isinstance(fn, FuncInfo):
             return self.I.call_function(fn, args, kwargs)
+        if isinstance(fn, XObj):
+            f = self.I.repo.lookup_method(fn.cls, "__call__")
+            if f is None:
+                raise self.bad(f"instance of {fn.cls.name} is not callable", n)
+            return self.I.call_function(f, args, kwargs, self_obj=fn)
         if isinstance(fn, _NpAttr):
             return self.np_call(fn.path, args, kwargs, n)
         if isinstance(fn, ClassInfo):
@@ -975,6 +1018,12 @@ class _Bound:
 class _NpAttr:
     def __init__(self, path):
         self.path = path
+
+    def __eq__(self, o):
+        return isinstance(o, _NpAttr) and o.path == self.path
+
+    def __hash__(self):
+        return hash(("np", self.path))
 
     def __repr__(self):
         return f"np.{self.path}"
@@ -1339,7 +1388,7 @@ def _py_isinstance(obj, cls):
     cl = cls if isinstance(cls, tuple) else (cls,)
     for c in cl:
         if isinstance(c, ClassInfo):
-            if c.name == "FeArray" and isinstance(obj, XArray) and type(obj).__name__ == "XFe":
+            if c.name == "FeArray" and isinstance(obj, XArray) and (type(obj).__name__ == "XFe" or getattr(type(obj), "_is_fearray_model", False)):
                 return True
             if isinstance(obj, EnumVal) and (obj.cls is c or c in obj.cls.mro):
                 return True
@@ -1381,6 +1430,7 @@ _PY_BUILTINS = {
     "getattr": lambda o, n, d=None: getattr(o, n, d) if not isinstance(o, (XObj,)) else o.attrs.get(n, d),
     "hasattr": lambda o, n: hasattr(o, n),
     "str": str,
+    "slice": slice,
     "bool": bool,
     "list": list,
     "tuple": tuple,
